@@ -35,12 +35,35 @@ Definition fnz : f64 := B754_zero true.        (* -0 *)
 Definition fnan : f64 := B754_nan.
 Definition finf (s : bool) : f64 := B754_infinity s.
 
-(* ---------- the wire: a float64 travels as its 64-bit pattern, read as int64 ---------- *)
-
-Definition f64_of_bits (z : Z) : f64 := Binary.B2BSN 53 1024 (b64_of_bits (z mod 2 ^ 64)).
+(* ---------- the wire: a float64 travels as its 64-bit pattern, read as int64 ----------
+   math.Float64frombits / math.Float64bits: sign (bit 63), biased exponent E
+   (bits 52..62), fraction M (bits 0..51).  E = 2047: infinity (M = 0) or NaN;
+   E = 0: zero or subnormal M * 2^-1074; otherwise (2^52 + M) * 2^(E - 1075).
+   [binary_normalize] builds the Flocq value (with its validity proof) from the
+   integer mantissa and exponent; nothing is rounded here (the mantissa has at
+   most 53 bits).  C13_PropsFloat: [bits_of_f64] is Flocq's [bits_of_b64]
+   (Bits.v) read as a signed word, and [f64_of_bits] inverts it. *)
+Definition two52 : Z := 4503599627370496.
+Definition two63 : Z := 9223372036854775808.
+Definition two64 : Z := 18446744073709551616.
+Definition f64_of_bits (z : Z) : f64 :=
+  let u := Z.land z (Z.ones 64) in               (* z mod 2^64: the int64 read as uint64 *)
+  let s := Z.testbit u 63 in
+  let E := Z.land (Z.shiftr u 52) (Z.ones 11) in (* (u / 2^52) mod 2^11 *)
+  let M := Z.land u (Z.ones 52) in               (* u mod 2^52 *)
+  if E =? 2047 then (if M =? 0 then B754_infinity s else B754_nan)
+  else if E =? 0 then binary_normalize 53 1024 _ _ mode_NE (if s then - M else M) (-1074) s
+  else binary_normalize 53 1024 _ _ mode_NE (if s then - (M + two52) else M + two52) (E - 1075) s.
+(* every NaN is written as the one pattern 0x7FF8000000000000 *)
 Definition bits_of_f64 (x : f64) : Z :=
-  let b := bits_of_b64 (Binary.BSN2B 53 1024 default_nan_pl64 x) in
-  if b <? 2 ^ 63 then b else b - 2 ^ 64.
+  match x with
+  | B754_zero s => if s then - two63 else 0
+  | B754_infinity s => if s then 2047 * two52 - two63 else 2047 * two52
+  | B754_nan => 2047 * two52 + 2251799813685248
+  | B754_finite s m e _ =>
+      let b := if Z.pos m <? two52 then Z.pos m else (e + 1075) * two52 + (Z.pos m - two52) in
+      if s then b - two63 else b
+  end.
 
 (* ---------- Go's operators at float64 ---------- *)
 
@@ -159,45 +182,76 @@ Definition round2 (x : f64) : f64 :=
   | _ => x
   end.
 
-(* outcome of a Range call: a slice, an error, or — the loops at float64 have a
-   state from which they never leave — no return at all ([FHang]: the counter no
-   longer changes, i + step == i, while the loop condition holds; the code
-   appends until memory is exhausted).  [FFuel]: the model's iteration budget
-   is used up (nothing is claimed). *)
+(* outcome of a Range call: a slice or an error; [FFuel]: the model's iteration
+   budget is used up (nothing is claimed about such a call; the harness sends
+   none). *)
 Inductive fres : Type :=
 | FOk (l : list f64)
 | FErr (kind : Z)
-| FHang
 | FFuel.
 
-(* for i := start; i < end; i += step {
-       n, _ := N[T](NumToString(i)); result = append(result, T(n))
-       if i+step < i { break }
-   } *)
+(* range.go after a549427 (fix: Range tests the term it appends against end and
+   stops when the counter no longer moves):
+
+   for i := start; i < end; i += step {
+       n, _ := N[T](NumToString(i))
+       if !(T(n) < end) { break }       // a float term rounded to two decimals has reached end
+       result = append(result, T(n))
+       if !(i+step > i) { break }       // the counter would wrap / step too small to change a float counter
+   }
+
+   [acc] is the result so far, newest term first.  A NaN counter (NaN step,
+   Inf - Inf) fails [i < end] at the next test. *)
 Fixpoint frange_up (fuel : nat) (i step e : f64) (acc : list f64) : fres :=
+  if flt i e then
+    let n := round2 i in
+    if negb (flt n e) then FOk (rev_append acc [])
+    else
+      let acc' := n :: acc in
+      let nx := fadd i step in
+      if negb (fgt nx i) then FOk (rev_append acc' [])
+      else match fuel with
+           | O => FFuel
+           | S f => frange_up f nx step e acc'
+           end
+  else FOk (rev_append acc []).
+
+(* for i := start; end < i; i -= Abs(step) {
+       n, _ := N[T](NumToString(i))
+       if !(end < T(n)) { break }
+       result = append(result, T(n))
+       if !(i-Abs(step) < i) { break }
+   } *)
+Fixpoint frange_down (fuel : nat) (i astep e : f64) (acc : list f64) : fres :=
+  if flt e i then
+    let n := round2 i in
+    if negb (flt e n) then FOk (rev_append acc [])
+    else
+      let acc' := n :: acc in
+      let nx := fsub i astep in
+      if negb (flt nx i) then FOk (rev_append acc' [])
+      else match fuel with
+           | O => FFuel
+           | S f => frange_down f nx astep e acc'
+           end
+  else FOk (rev_append acc []).
+
+(* THE CODE BEFORE a549427 (ascending loop): the raw counter was tested against
+   end, the term appended was its two-decimal rounding, and the only break test
+   was [i+step < i].  [None]: the counter is stationary (i+step == i) while
+   i < end — that loop never returned.  Kept only for the witnesses in
+   C13_PropsFloat (what the repair changed). *)
+Fixpoint frange_up_asfound (fuel : nat) (i step e : f64) (acc : list f64) : option fres :=
   if flt i e then
     let acc' := round2 i :: acc in
     let nx := fadd i step in
-    if flt nx i then FOk (rev_append acc' [])
-    else if feq nx i then FHang
+    if flt nx i then Some (FOk (rev_append acc' []))
+    else if feq nx i then None
     else match fuel with
-         | O => FFuel
-         | S f => frange_up f nx step e acc'
+         | O => Some FFuel
+         | S f => frange_up_asfound f nx step e acc'
          end
-  else FOk (rev_append acc []).
-
-(* for i := start; end < i; i -= Abs(step) { …; if i-Abs(step) > i { break } } *)
-Fixpoint frange_down (fuel : nat) (i astep e : f64) (acc : list f64) : fres :=
-  if flt e i then
-    let acc' := round2 i :: acc in
-    let nx := fsub i astep in
-    if fgt nx i then FOk (rev_append acc' [])
-    else if feq nx i then FHang
-    else match fuel with
-         | O => FFuel
-         | S f => frange_down f nx astep e acc'
-         end
-  else FOk (rev_append acc []).
+  else Some (FOk (rev_append acc [])).
 
 Definition fone : f64 := f_of_int 1.
 
